@@ -218,7 +218,7 @@ def gen_case(ctx):
 
 def run(ctx):
     setup()
-    for _ in range(ctx.scale(70, 700)):
+    for _ in range(ctx.scale(70, 2000)):
         if ctx.out_of_time():
             break
         case = gen_case(ctx)
